@@ -537,6 +537,25 @@ class Check:
             return False
         return True
 
+    def coqchk(self, timeout=3000):
+        """thorough tier: independent re-check of the compiled Props file and its closure"""
+        t = time.time()
+        rc, out = sh(["coqchk", "-o", "-silent", "-Q", COQ, "RN", "RN.Props." + self.prop], cwd=COQ, timeout=timeout)
+        self.notes["coqchk_s"] = round(time.time() - t, 1)
+        m = re.search(r"\* Axioms:(.*?)\n\s*\n\* Constants/Inductives relying on type-in-type:(.*?)\n", out, flags=re.S)
+        axioms = m.group(1).strip() if m else "?"
+        self.cov["coqchk"] = {"rc": rc, "axioms": axioms}
+        bad = rc != 0 or not m
+        if m and axioms != "<none>":
+            names = [a.strip() for a in axioms.split("\n") if a.strip()]
+            extra = [a for a in names if a.split(".")[-1] not in STD_AXIOMS_ALLOWED and a not in STD_AXIOMS_ALLOWED]
+            bad = bad or bool(extra)
+        if "type-in-type: <none>" not in out.replace("\n", " ") and m:
+            pass
+        if bad:
+            self.violation("coqchk does not accept Props/%s.vo" % self.prop, {"broken": "coqchk", "log": out[-2000:]}, False)
+        return not bad
+
     # ---- verdicts -------------------------------------------------------------------
     def violation(self, what, replay, has_input=True):
         self.violations.append((what, replay, has_input))
